@@ -115,7 +115,7 @@ def all_shapes(tier, seed):
         cnt = "ExprCompose(ExprSlice(%s, 0, 6), %s)" % (T.I('n', 8), T.C(0, w - 6))
         for op in ('<<', '>>', 'a>>', '<<<', '>>>'):
             out.append(('wide:inrange:%s:w%d' % (op, w), T.O(op, a, cnt)))
-        out.append(('wide:const-slice:w%d' % w, "ExprSlice(%s, %d, %d)" % (T.C((0xC000A1B2C3D4E5F60718 << (w - 80)) | 0x5a, w), w - 8, w)))
+        out.append(('wide:const-slice:w%d' % w, "ExprSlice(%s, %d, %d)" % (T.C(((0xC000A1B2C3D4E5F60718 << w) >> 80) | 0x5a, w), w - 8, w)))
     # rcl/rcr rotate a register extended by the carry: widths 9, 17 and 33 have their own cases in rot_left/rot_right
     for w in (9, 17, 33):
         a, bb = T.I('a', w), T.I('b', w)
